@@ -203,7 +203,9 @@ def _shrink_worker(args):
         from hypothesis import given
         import hypothesis.internal.conjecture.engine as eng
 
-        if tier == "quick":
+        if os.environ.get("VERIF_MAX_SHRINKS"):
+            eng.MAX_SHRINKS = int(os.environ["VERIF_MAX_SHRINKS"])
+        elif tier == "quick":
             eng.MAX_SHRINKS = 150
         mod = load_check(check_id)
         known = load_known(check_id)
